@@ -26,6 +26,7 @@ type mval struct {
 	isV   bool // value-receiver Cloner
 	isM   bool // map-kind Cloner with one reference element (c[0])
 	isNil bool
+	isCNil bool // a nil pointer of the Cloner type
 }
 
 type mstore map[string]mval
@@ -73,6 +74,8 @@ func (st mstore) render() string {
 			b.WriteString("V{" + strings.Join(v.c, ",") + "}")
 		} else if v.isM {
 			b.WriteString("M{" + strings.Join(v.c, ",") + "}")
+		} else if v.isCNil {
+			b.WriteString("C<nil>")
 		} else if v.isNil {
 			b.WriteString("nil")
 		} else {
@@ -146,7 +149,9 @@ func RunModel(g *gen.Grammar, c *Call, withState bool) *Model {
 	m := &Model{g: g, in: c.Input, plan: &c.Plan, withState: withState, lrSeed: map[string]*lrEntry{}, memoOn: c.Opts.Memoize, memo: map[string][2]int{}}
 	st := mstore{}
 	for _, kv := range c.Opts.InitState {
-		if strings.HasPrefix(kv[1], "C:") {
+		if kv[1] == "CNIL" {
+			st = st.with(kv[0], mval{isCNil: true})
+		} else if strings.HasPrefix(kv[1], "C:") {
 			st = st.with(kv[0], mval{isC: true, c: strings.Split(kv[1][2:], ",")})
 		} else if strings.HasPrefix(kv[1], "M:") {
 			st = st.with(kv[0], mval{isM: true, c: []string{kv[1][2:]}})
@@ -285,6 +290,8 @@ func (m *Model) apply(st mstore, ops []kernel.StateOp) mstore {
 			}
 		case "nil":
 			st = st.with(op.Key, mval{isNil: true})
+		case "cnil":
+			st = st.with(op.Key, mval{isCNil: true})
 		case "mmut":
 			if v, ok := st[op.Key]; ok && v.isM && len(v.c) > 0 {
 				st = st.with(op.Key, mval{isM: true, c: []string{v.c[0] + "+" + op.Val}})
